@@ -32,7 +32,10 @@ def matches_pattern(path: str, pattern: str) -> bool:
     """
     if pattern.endswith("/"):
         return _matches_directory_pattern(path, pattern)
-    return fnmatch.fnmatch(path, pattern) or fnmatch.fnmatch(str(Path(path)), pattern)
+    if fnmatch.fnmatch(path, pattern) or fnmatch.fnmatch(str(Path(path)), pattern):
+        return True
+    # A leading "**/" means "at any depth", which includes the top level
+    return pattern.startswith("**/") and fnmatch.fnmatch(path, pattern[3:])
 
 
 def _matches_directory_pattern(path: str, pattern: str) -> bool:
